@@ -271,6 +271,7 @@ def r3(ctx):
             if _deregisters(ctx, f, m, base):
                 ctx.ok("C02.R3", f, m.node, "edge removal paired with "
                        "getOwner().getNextRank().pop() under the owner guard")
+                _dropped_is_childless(ctx, f, m, base)
             else:
                 ctx.bad("C02.R3", f, m.node,
                         "elements of %s.payloads are dropped without removing "
@@ -278,6 +279,49 @@ def r3(ctx):
                         "an owned non-leaf fiber the rank list keeps stale "
                         "fibers that are no longer in the tree" % base)
     ctx.floor("C02.R3", n, 1, "payload-dropping writes in C02 mutators")
+
+
+def _dropped_is_childless(ctx, f, m, base):
+    """One pop() de-registers one fiber.  The dropped payload may only be a
+    sub-fiber when it is known to have no children of its own (`len(v) == 0`
+    for a variable v obtained from <base>), otherwise its descendants stay
+    listed in the deeper ranks."""
+    from ..cfg import guards
+    cands = set()
+    for n in f.own_nodes():
+        if isinstance(n, ast.Assign) and len(n.targets) == 1 and \
+                isinstance(n.targets[0], ast.Name) and isinstance(n.value, ast.Call) \
+                and isinstance(n.value.func, ast.Attribute) and \
+                text(n.value.func.value) == base:
+            cands.add(n.targets[0].id)
+    cond = [frozenset()]
+    for t, pol in guards(m.stmt, asserts=False):
+        d = pat.dnf(t, pol)
+        if d is None:
+            raise AnalysisError("C02.R3: drop condition too large for DNF")
+        cond = [a | b for a in cond for b in d]
+    cond = [d for d in cond if not any((t, not q) in d for t, q in d)]
+    bad = []
+    for d in cond:
+        ok = False
+        for v in cands:
+            if ("len(%s)==0" % v, True) in d or \
+                    ("isinstance(%s,type(%s))" % (v, base), False) in d or \
+                    ("isinstance(%s,Fiber)" % v, False) in d:
+                ok = True
+        if not ok:
+            bad.append(d)
+    if bad:
+        ctx.bad("C02.R3", f, m.node, "the element is dropped (with a single "
+                "pop() from the next rank) also when %s -- without knowing that "
+                "a dropped sub-fiber has no children (`len(.) == 0`): the "
+                "fibers below it stay listed in the deeper ranks"
+                % sorted(t if q else "not " + t for t, q in bad[0]),
+                text_="dropped sub-fiber childless: " + construct(m.stmt))
+    else:
+        ctx.ok("C02.R3", f, m.node, "a dropped sub-fiber is known to be "
+               "childless (len == 0), so one pop() suffices",
+               text_="dropped sub-fiber childless: " + construct(m.stmt))
 
 
 def _deregisters(ctx, f, m, base):
